@@ -109,6 +109,17 @@ PROPS = {
         "technique": "verified certificate checker (Lean 4 soundness proof) applied to dumps of the real node store",
         "partial": ["full/sparse view agreement and hash equality not dumped", "EV forests: no verified normal-form checker"],
     },
+    "C12": {
+        "title": "Results do not depend on storage, memory-manager or deletion policy",
+        "theorems": CORE + APPLY + ["Meddly.MemMan.live_contents_untouched", "Meddly.MemMan.tiling_refines_alloc",
+                                    "Meddly.MemMan.freelist_refines_alloc", "Meddly.MemMan.alloc_no_overlap"],
+        "quick": [fam("policy")],
+        "thorough": [fam("policy", "asan")],
+        "level_text": "The model has no storage / memory-manager / deletion parameters at all: every result is the unique reduced tree of its denotation (DD.canon, apply*_unique), so whatever a policy does, an implementation that passes the canonical-form certificate and denotes the specified function has the same node count and structure. The policy-dependent components are each shown to refine a policy-free abstraction: every memory manager refines Alloc with live contents untouched (C18 theorems), node lifetime is policy-parametric (C06). Tie: one scripted allocation-heavy history (build / operate / release / cache clears) executed under the reference policy and 8 (quick) or all 36 (thorough) combinations of 3 storage flags x 4 managers x 3 deletion policies; every result table is compared with the specification oracle, per-edge node and edge counts with the reference configuration, and every configuration's forest passes the verified certificate checker and ends with zero nodes after release.",
+        "level_note": "The packed node layout (full / sparse / truncated) is observed only through the public full view; a policy_indep theorem over an explicit codec model is not written - independence is derived from canonicity plus the per-run certificates. Memory use and timing are outside the property.",
+        "technique": "Lean 4 proof (canonicity + allocator refinement) + cross-configuration differential run with verified certificates",
+        "partial": ["no explicit Lean codec model of full/sparse packing"],
+    },
 }
 
 NOT_YET = {}
